@@ -5,7 +5,9 @@ with their own defaults on top.
 Monitor: every source supplies its own token for the probed name, callables log each call
 and return a call-numbered token, sub-templates print what they see; probes by name, by
 entity, with missing=, by expression (`seen(n)` reports the identity of what it was given)
-are rendered before / inside / after every block.
+are rendered before / inside / after every block.  Part R makes the nest a template that invokes
+itself over a tree of objects (every node binds other values in the same block tags): the
+groups after an inner activation must show the outer activation's bindings again.
 Oracle: vlib.c02_util.Model, an interpreter over an ordered list of scopes written from the
 documented priority list and the tag docstrings; output and call trace must both agree.
 """
@@ -31,9 +33,22 @@ RULE = ('part A: exhaustive over the 127 non-empty subsets of the seven concrete
         'try-except} to depth 2 (quick) / 3 (thorough) x bound value kind x the source delivering the '
         'base namespace, with a probe group before / inside / after every block and sub-template calls '
         'at every probe point, each nest also left through an exception (a raising callable or a raising '
-        'sub-template with own defaults and variables) caught by a dtml-try at every level. distinct = '
-        'distinct (subset, kinds, variant), history or (nest, value kind, base source, exception mode) '
-        'tuples; a part-A case is non-trivial when at least two sources define the name or the winner is '
+        'sub-template with own defaults and variables) caught by a dtml-try at every level; part R '
+        '(re-entrant blocks): the nest is a template that invokes ITSELF by name from inside its innermost '
+        'block once per child of the current node of a small tree of objects (walk over <dtml-in kids> or '
+        'over <dtml-if nxt><dtml-with nxt>), directly, through a second template with own defaults, or '
+        'through a second template that binds names with its own let around the call (mutual '
+        'invocation); every node supplies its own subject for every block, so each activation binds '
+        'other values, and the probe groups after the inner activations must show the outer activation\'s '
+        'bindings again; every block kind at depth 1 x value kind x route x (driver, tree shape), every '
+        'pair of kinds at depth 2 (thorough: x value kind x route, depth 3 rotating), with / without the '
+        'last leaf raising at the end of its innermost block into a dtml-try of its parent activation, '
+        'the self-invoking template with / without construction defaults and variables of its own, '
+        'invoked from a wrapper template or called by the application itself (namespace delivered by '
+        'call keywords / client / mapping), rendered once or twice on the same objects, plus seeded nests (depth 1-3) over '
+        'seeded trees (2-7 nodes, pruned to a logical size cap) rendered 1-3 times. distinct = '
+        'distinct (subset, kinds, variant), history, (nest, value kind, base source, exception mode) or '
+        '(nest, value kind, base source, tree, driver, route, exception, renders, top, own) tuples; a part-A case is non-trivial when at least two sources define the name or the winner is '
         'callable / template / falsy')
 ASSUMPTIONS = [
     'one lookup by name calls the resolved callable exactly once (call trace compared exactly)',
@@ -45,6 +60,10 @@ ASSUMPTIONS = [
     'the invocation is decisive; no probed name is defined in both)',
     'the sequence-name cache of dtml-in is not asserted',
     'ctor-mapping keys starting with "_" and client attributes starting with "_" are not used',
+    'part R: every node of the tree defines every name the walk tests (kids, nxt, doom) and every '
+    'subject, so no activation depends on a name leaking from its caller; names the caller\'s blocks '
+    'bound ARE visible to the invoked template (caller\'s current namespace) and the model says so',
+    'part R: recursion depth stays at most 4 activations (far below the engine\'s limit of 200 levels)',
 ]
 SHARD_TIMEOUT = {'quick': 600, 'thorough': 3000}
 NSHARDS = {'quick': 16, 'thorough': 32}
@@ -422,7 +441,7 @@ def compare(exp, exp_trace, out, rec):
     if not isinstance(out, str):
         problems.append('render returned %s, not str' % type(out).__name__)
         out = str(out)
-    if not U.segments_regex(exp).fullmatch(out):
+    if not U.segments_match(exp, out):
         problems.append('output differs from the model: %s' % first_difference(exp, out))
     calls = rec.calls()
     if calls != exp_trace:
@@ -492,8 +511,30 @@ def nest_value(level, label, vk, depth):
     return U.Tmpl(name, ast)
 
 
-def build_nest(kinds, vk, exc=None):
+TREES = {'chain2': [[]], 'chain3': [[[]]], 'fork': [[], []], 'demo': [[[]], []],
+         'bushy': [[[], []], [[]]]}
+REC_ROUTES = ['direct', 'hop', 'hoplet']
+REC_DRIVERS = ['kids', 'nxt']
+# (driver, tree) combinations of the systematic part; driver nxt walks a chain
+REC_TD = [('kids', 'chain3'), ('kids', 'fork'), ('kids', 'demo'), ('nxt', 'chain3'), ('nxt', 'chain2')]
+
+
+def build_nest(kinds, vk, exc=None, rec=None):
     """-> (ast, base scope dict of specs).  Level L (1-based) uses kinds[L-1].
+
+    rec = None, or {'tree': nested lists, 'driver': 'kids' | 'nxt', 'route': 'direct' | 'hop' |
+    'hoplet', 'doom': 0 | 1}: the nest becomes the template `self`, which between the two probe
+    groups of its innermost block invokes ITSELF by name once per child of the current node of
+    a small tree of objects (driver kids: <dtml-in kids>; driver nxt: <dtml-if nxt><dtml-with
+    nxt>), directly or through the template `hop` (route hop; route hoplet: hop binds names
+    with its own let block around the call).  Every node carries its own subjects for every
+    level, so each activation binds other values: an inner activation of the very same block
+    tags must leave the bindings of the outer activation as they were.  doom: the last leaf
+    raises at the end of its innermost block and the invocation of the children is wrapped in
+    a dtml-try, so an inner activation is also left through an exception.  own: `self` has
+    construction defaults and variables of its own (names nothing else defines).  The
+    returned ast is the top template (it invokes `self` by name; in the namespace the
+    template is called `walk`).
 
     exc = None, or (j, raiser): the body of the innermost block ends by raising -- raiser
     'boom': a callable called by name; 'rsub': a sub-template with its own defaults and
@@ -503,7 +544,7 @@ def build_nest(kinds, vk, exc=None):
     enclosing block: whatever the unwound blocks / sub-template bound must be gone."""
     D = len(kinds)
     P, T = U.Probe, U.Text
-    base = {'n': nest_value(0, 'base', vk, D), 'seen': U.Helper('seen')}
+    base = {'seen': U.Helper('seen')}
     sub_ast = [T('{sub|'), P('name', 'n', True)]
     for lv in range(1, D + 1):
         sub_ast.append(P('miss', 'b%d' % lv, True))
@@ -512,8 +553,9 @@ def build_nest(kinds, vk, exc=None):
     base['sub'] = U.Tmpl('sub', sub_ast, {'own': U.Plain('sub-own')})
     base['subn'] = U.Tmpl('subn', [T('{subn|'), P('name', 'n', True), P('miss', 'own', True), T('}')],
                           {'n': U.Plain('subn-n')})
-    if exc:
+    if exc or (rec and rec.get('doom')):
         base['boomX'] = U.Raiser('boomX', 'XError', 'boom-x')
+    if exc:
         base['rsub'] = U.Tmpl('rsub', [T('{rsub|'), P('name', 'n', True), P('name', 'own2', True),
                                        P('name', 'rv', True), P('name', 'subn', True),
                                        P('call', 'boomX'), T('unreached}')],
@@ -543,48 +585,109 @@ def build_nest(kinds, vk, exc=None):
         ps += [P('name', 'sub'), P('name', 'subn'), P('miss', 'own')]
         if exc:
             ps += [P('miss', 'own2'), P('miss', 'rv')]
+        if rec:
+            ps += [P('miss', 'hopd'), P('miss', 'hv')]
+            if rec.get('own'):
+                ps += [P('miss', 'wd'), P('miss', 'wv')]
         return ps
 
-    subjects = {}
-    only_objs = []
-    for lv in range(1, D + 1):
-        k = kinds[lv - 1]
-        b = 'b%d' % lv
-        if k in ('in', 'inmap'):
-            items = []
-            for i in range(2):
-                attrs = {'n': nest_value(lv, '%s.%d' % (k, i), vk, D), b: U.Plain('%s@%s.%d' % (b, k, i))}
-                nm = 'item%d.%d' % (lv, i)
-                items.append(U.Map(nm, attrs) if k == 'inmap' else U.Obj(nm, attrs))
-            subjects['seq%d' % lv] = U.Seq('seq%d' % lv, items)
-        elif k in ('with', 'only'):
-            o = U.Obj('obj%d' % lv, {'n': nest_value(lv, k, vk, D), b: U.Plain('%s@%s' % (b, k))})
-            subjects['obj%d' % lv] = o
-            if k == 'only':
-                only_objs.append(o)
-        elif k == 'withmap':
-            subjects['map%d' % lv] = U.Map('map%d' % lv, {'n': nest_value(lv, k, vk, D),
-                                                         b: U.Plain('%s@%s' % (b, k))})
-        elif k in ('let', 'letx'):
-            subjects['src%d' % lv] = nest_value(lv, k, vk, D)
-        elif k == 'if':
-            subjects['c%d' % lv] = U.Call('c%d' % lv)
-        elif k in ('ifelse', 'unless'):
-            subjects['c%d' % lv] = U.Call('c%d' % lv, ret='falsy')
-        elif k == 'elif':
-            subjects['c%d' % lv] = U.Call('c%d' % lv, ret='falsy')
-            subjects['e%d' % lv] = U.Call('e%d' % lv)
-        elif k == 'try':
-            subjects['boom%d' % lv] = U.Raiser('boom%d' % lv, 'L%dError' % lv, 'boom-%d' % lv)
-        else:
-            raise ValueError(k)
-    base.update(subjects)
+    def node_scope(g):
+        """The names one node of the tree (g: its tag; '' = the base namespace) supplies:
+        its own `n` and its own subject for every level.  -> (scope, objects of `with only`)"""
+        subjects = {'n': nest_value(0, 'base' + g, vk, D)}
+        only_objs = []
+        for lv in range(1, D + 1):
+            k = kinds[lv - 1]
+            b = 'b%d' % lv
+            if k in ('in', 'inmap'):
+                items = []
+                for i in range(2):
+                    attrs = {'n': nest_value(lv, '%s.%d%s' % (k, i, g), vk, D),
+                             b: U.Plain('%s@%s.%d%s' % (b, k, i, g))}
+                    nm = 'item%d.%d%s' % (lv, i, g)
+                    items.append(U.Map(nm, attrs) if k == 'inmap' else U.Obj(nm, attrs))
+                subjects['seq%d' % lv] = U.Seq('seq%d%s' % (lv, g), items)
+            elif k in ('with', 'only'):
+                o = U.Obj('obj%d%s' % (lv, g), {'n': nest_value(lv, k + g, vk, D),
+                                                b: U.Plain('%s@%s%s' % (b, k, g))})
+                subjects['obj%d' % lv] = o
+                if k == 'only':
+                    only_objs.append(o)
+            elif k == 'withmap':
+                subjects['map%d' % lv] = U.Map('map%d%s' % (lv, g), {'n': nest_value(lv, k + g, vk, D),
+                                                                    b: U.Plain('%s@%s%s' % (b, k, g))})
+            elif k in ('let', 'letx'):
+                subjects['src%d' % lv] = nest_value(lv, k + g, vk, D)
+            elif k == 'if':
+                subjects['c%d' % lv] = U.Call('c%d%s' % (lv, g))
+            elif k in ('ifelse', 'unless'):
+                subjects['c%d' % lv] = U.Call('c%d%s' % (lv, g), ret='falsy')
+            elif k == 'elif':
+                subjects['c%d' % lv] = U.Call('c%d%s' % (lv, g), ret='falsy')
+                subjects['e%d' % lv] = U.Call('e%d%s' % (lv, g))
+            elif k == 'try':
+                subjects['boom%d' % lv] = U.Raiser('boom%d%s' % (lv, g), 'L%dError' % lv,
+                                                   'boom-%d%s' % (lv, g))
+            else:
+                raise ValueError(k)
+        return subjects, only_objs
+
+    nodes = []            # (scope, objects of `with only`) of every node, the base first
+    doomed = {}           # tag -> scope
+
+    def grow(g, shape):
+        """Scope of the node g with its sub-tree: children under `kids` (a sequence, empty
+        at a leaf) and the first child under `nxt` (None at a leaf) -- every node defines
+        both, so that a leaf does not see its parent's."""
+        scope, only_objs = node_scope(g)
+        nodes.append((scope, only_objs))
+        doomed[g] = scope
+        children = [U.Obj('node%s/%d' % (g, i), grow('%s/%d' % (g, i), sh))
+                    for i, sh in enumerate(shape)]
+        scope['kids'] = U.Seq('kids' + g, children)
+        scope['nxt'] = children[0] if children else U.Plain(None)
+        scope['doom'] = U.Plain(0)
+        return scope
+
+    if rec:
+        base.update(grow('', rec['tree']))
+        if rec.get('doom'):
+            # the leaf visited last: last child all the way down (driver nxt: first child)
+            g, shape = '', rec['tree']
+            while shape:
+                i = 0 if rec['driver'] == 'nxt' else len(shape) - 1
+                g, shape = '%s/%d' % (g, i), shape[i]
+            doomed[g]['doom'] = U.Plain(1)
+        hop_ast = [P('name', 'walk', True)]
+        if rec['route'] == 'hoplet':
+            hop_ast = [U.Let([('hv', 'name', 'n'), ('hw', 'expr', 'n')],
+                             [P('name', 'hv', True)] + hop_ast + [P('name', 'hv', True),
+                                                                 P('expr', 'hw', True)])]
+        base['hop'] = U.Tmpl('hop', [T('{hop|'), P('miss', 'hopd', True)] + hop_ast + [T('}')],
+                             {'hopd': U.Plain('hop-own')})
+    else:
+        scope, only_objs = node_scope('')
+        nodes.append((scope, only_objs))
+        base.update(scope)
     # the object of a `with only` is the whole namespace inside: it carries the helpers and
-    # the subjects of the other levels (same objects as in the base namespace)
-    for o in only_objs:
-        for name, spec in base.items():
-            if name != 'n' and spec is not o and name not in o.attrs:
-                o.attrs[name] = spec
+    # the subjects of the other levels of its node (same objects as in the namespace outside)
+    for scope, only_objs in nodes:
+        for o in only_objs:
+            for src in (scope, base):
+                for name, spec in src.items():
+                    if name != 'n' and spec is not o and name not in o.attrs:
+                        o.attrs[name] = spec
+
+    def recursion():
+        """Invocation of `self` for every child of the current node."""
+        call = [T('{'), P('name', 'walk' if rec['route'] == 'direct' else 'hop'), T('}')]
+        if rec['driver'] == 'kids':
+            walk = [U.In('kids', False, call)]
+        else:
+            walk = [U.If('nxt', [U.With('nxt', 'inst', call)], [T('.')])]
+        if rec.get('doom'):
+            walk = [U.Try([T('discarded')] + walk + [T('unraised')], point('!r:', D))]
+        return walk
 
     def raising():
         j, raiser = exc
@@ -598,9 +701,13 @@ def build_nest(kinds, vk, exc=None):
         body = point('<%d:' % lv, lv)
         if lv < D:
             body += level(lv + 1)
+        elif rec:
+            body += recursion()
         body += point('|%d>' % lv, lv)
         if exc and lv == D:
             body += raising()
+        if rec and rec.get('doom') and lv == D:
+            body += [U.If('doom', [P('call', 'boomX'), T('unreached')], [T(';')])]
         b = 'b%d' % lv
         c = 'c%d' % lv
         if k in ('in', 'inmap'):
@@ -632,6 +739,19 @@ def build_nest(kinds, vk, exc=None):
         return blk
 
     ast = point('^:', 0) + level(1) + point('$:', 0)
+    if rec:
+        if rec.get('own'):
+            # the self-invoking template has construction defaults and variables of its own:
+            # laid on top of the caller's namespace by every activation, gone after each
+            base['walk'] = U.Tmpl('walk', ast, {'wd': U.Plain('walk-own-default')},
+                                  {'wv': U.Plain('walk-own-variable')})
+        else:
+            base['walk'] = U.Tmpl('walk', ast)
+        for scope, only_objs in nodes:
+            for o in only_objs:
+                o.attrs['walk'] = base['walk']
+        ast = [T('top'), P('miss', 'wd'), P('miss', 'wv'), P('name', 'walk'),
+               P('miss', 'wd'), P('miss', 'wv'), P('miss', 'hopd'), P('miss', 'hv')]
     return ast, base
 
 
@@ -706,6 +826,209 @@ def run_b(ctx, kinds, vk, bs, exc=None):
                     'expected': short(U.segments_text(exp), 1500), 'calls': rec.calls()[:40]})
 
 
+# ================================================================== part R: re-entrant blocks
+def tree_size(shape):
+    return 1 + sum(tree_size(c) for c in shape)
+
+
+def tree_depth(shape):
+    return 1 + max([tree_depth(c) for c in shape] or [0])
+
+
+def rec_cost(kinds, driver, shape):
+    """Logical size of one render: probe groups rendered = activations of the template x
+    probe groups per activation (a loop level renders its body once per item: two items)."""
+    m = 1
+    groups = 2
+    for k in kinds:
+        if k in ('in', 'inmap'):
+            m *= 2
+        groups += 2 * m
+
+    def activations(shape):
+        children = shape[:1] if driver == 'nxt' else shape
+        return 1 + m * sum(activations(c) for c in children)
+    return activations(shape) * groups
+
+
+def fit_tree(kinds, driver, shape, cap=160):
+    """Prune the leaf visited last until the render is within the logical size cap; the
+    root keeps at least one child (so there is always a re-entrant activation)."""
+    shape = [list(c) for c in _copy_tree(shape)]
+    while rec_cost(kinds, driver, shape) > cap and tree_size(shape) > 2:
+        node = shape
+        while node[-1]:
+            node = node[-1]
+        node.pop()
+    return shape
+
+
+def _copy_tree(shape):
+    return [_copy_tree(c) for c in shape]
+
+
+def run_r(ctx, kinds, vk, bs, rec):
+    """The nest as a template that invokes itself over a tree of objects (build_nest, rec).
+    The top template is rendered rec['renders'] times; the model persists across them."""
+    kinds = tuple(kinds)
+    case = {'part': 'R', 'kinds': list(kinds), 'vk': vk, 'bs': bs, 'rec': rec}
+    ctx.case(('R', kinds, vk, bs, repr(sorted(rec.items()))), True)
+    C = classes()
+    ast, base = build_nest(kinds, vk, None, rec)
+    # top: the self-invoking template object is itself the template the caller renders (its
+    # namespace comes with the call: keywords, client or mapping), not a wrapper around it
+    top_self = bool(rec.get('top')) and bs in ('kw', 'client', 'mapping')
+    loser = {'n': U.Plain('n@loser')} if bs != 'ctor_map' and not top_self else None
+    model = U.Model()
+    stack = [loser, base] if loser else [base]
+    rcd = Recorder()
+    rz = U.Realizer(rcd, C['HTML'])
+    src = U.to_dtml(ast)
+    self_src = U.to_dtml(base['walk'].ast)
+    key = 'R_%s_%s_%s_%s_%s' % ('-'.join(kinds), vk, bs, rec['driver'], rec['route'])
+    rb = rz.real_scope(base)
+    rl = rz.real_scope(loser) if loser else None
+    if top_self:
+        t = rb['walk']
+    elif bs == 'ctor_kw':
+        t = C['HTML'](src, rl, **rb)
+    elif bs == 'ctor_map':
+        t = C['HTML'](src, rb)
+    else:
+        t = C['HTML'](src, rl)
+    if bs == 'vars':
+        t.var(**rb)
+    client = rz.real(U.Obj('client', base)) if bs == 'client' else None
+    for r in range(rec.get('renders', 1)):
+        model.trace = []
+        rcd.clear()
+        before = (model.reentered, model.after_reentry, model.reentry_raised)
+        if top_self:
+            exp = model.show(model.resolve(stack, 'walk'))
+        else:
+            exp = model.render(ast, stack)
+        try:
+            if bs == 'kw':
+                out = t(**rb)
+            elif bs == 'client':
+                out = t(client)
+            elif bs == 'mapping':
+                out = t(None, rb)
+            else:
+                out = t()
+        except Exception as e:
+            ctx.violation('render %d of a template invoking itself raised %s: %s'
+                          % (r + 1, type(e).__name__, short(str(e), 160)), case, key=key + '_raise',
+                          detail={'source': self_src, 'expected': short(U.segments_text(exp), 3000)})
+            return
+        ctx.count('R:renders')
+        if r:
+            ctx.count('R:renders repeated on the same template objects')
+        if top_self:
+            ctx.count('R:renders with the self-invoking template called by the application itself')
+        if rec.get('own'):
+            ctx.count('R:renders with own defaults and variables on the self-invoking template')
+        ctx.count('R:activations inside an activation of the same template', model.reentered - before[0])
+        ctx.count('R:probes in an outer activation after an inner activation of the same template ended',
+                  model.after_reentry - before[1])
+        ctx.count('R:inner activations left through an exception', model.reentry_raised - before[2])
+        ctx.count('R:calls expected', len(model.trace))
+        if model.reentered - before[0]:
+            for lv, k in enumerate(kinds):
+                ctx.table('R block kind re-entered', k)
+                ctx.table('R block kind re-entered at depth', '%s@%d' % (k, lv + 1))
+                if model.reentry_raised - before[2]:
+                    ctx.table('R block kind of an inner activation unwound by an exception', k)
+            ctx.table('R route', rec['route'])
+            ctx.table('R driver', rec['driver'])
+            ctx.table('R bound value kind', vk)
+            ctx.table('R base namespace source', bs)
+            ctx.table('R activations of one template in progress at once', model.max_active)
+        problems = compare(exp, model.trace, out, rcd)
+        if problems:
+            ctx.violation('render %d of a template invoking itself: %s' % (r + 1, '; '.join(problems)),
+                          case, key=key,
+                          detail={'source': self_src, 'hop': U.to_dtml(base['hop'].ast),
+                                  'expected': short(U.segments_text(exp), 4000),
+                                  'observed': short(out, 4000), 'expected_calls': model.trace[:60],
+                                  'observed_calls': rcd.calls()[:60]})
+            return
+    ctx.table('R nest depth', len(kinds))
+    ctx.table('R tree nodes', tree_size(rec['tree']))
+    for f, n in model.probes.items():
+        ctx.count('R:probes ' + f, n)
+    ctx.count('R:sub-template invocations', model.subcalls)
+    ctx.count('R:probes not asserted (absent name under with-only)', model.wild)
+
+
+def configs_r(tier):
+    """Systematic part: every block kind (depth 1) x value kind x route x (driver, tree), the
+    exception variant and the base source rotating; every pair of kinds (depth 2) with the
+    rest rotating (thorough: x value kind x route; depth 3 rotating)."""
+    out = []
+    i = 0
+    for kinds in itertools.product(NEST_KINDS, repeat=1):
+        for vk in KINDS3:
+            for route in REC_ROUTES:
+                for driver, tree in REC_TD:
+                    i += 1
+                    dooms = (0, 1) if tier == 'thorough' else ((i // 2) % 2,)
+                    for doom in dooms:
+                        out.append((kinds, vk, BASE_SOURCES[(i + doom) % 6],
+                                    {'tree': TREES[tree], 'driver': driver, 'route': route,
+                                     'doom': doom, 'renders': 1 + i % 2, 'top': (i // 3) % 2,
+                                     'own': (i // 7) % 2}))
+    p = 0
+    for kinds in itertools.product(NEST_KINDS, repeat=2):
+        p += 1
+        for a, vk in enumerate(KINDS3):
+            for b, route in enumerate(REC_ROUTES):
+                if tier == 'quick' and (p % 3 != a or (p // 3) % 3 != b):
+                    continue
+                i += 1
+                driver, tree = REC_TD[i % 5]
+                out.append((kinds, vk, BASE_SOURCES[i % 6],
+                            {'tree': fit_tree(kinds, driver, TREES[tree]), 'driver': driver,
+                             'route': route, 'doom': (i // 5) % 2, 'renders': 1 + (i // 2) % 2,
+                             'top': (i // 3) % 2, 'own': (i // 7) % 2}))
+    if tier == 'thorough':
+        for kinds in itertools.product(NEST_KINDS, repeat=3):
+            i += 1
+            driver, tree = REC_TD[i % 5]
+            out.append((kinds, KINDS3[i % 3], BASE_SOURCES[i % 6],
+                        {'tree': fit_tree(kinds, driver, TREES[tree]), 'driver': driver,
+                         'route': REC_ROUTES[(i // 3) % 3], 'doom': (i // 5) % 2, 'renders': 1,
+                         'top': (i // 3) % 2, 'own': (i // 7) % 2}))
+    return out
+
+
+def random_tree(rng, budget, depth):
+    """Nested lists; at most `budget` nodes below the root, at most `depth` levels below it."""
+    shape = []
+    if depth <= 0:
+        return shape, budget
+    for _ in range(rng.randint(0 if depth < 3 else 1, 3)):
+        if budget <= 0:
+            break
+        budget -= 1
+        child, budget = random_tree(rng, budget, depth - 1)
+        shape.append(child)
+    return shape, budget
+
+
+def random_rec(rng, tier):
+    d = rng.choice([1, 1, 2, 2, 3]) if tier == 'thorough' else rng.choice([1, 2, 2, 3])
+    kinds = tuple(rng.choice(NEST_KINDS) for _ in range(d))
+    driver = rng.choice(['kids', 'kids', 'nxt'])
+    tree, _ = random_tree(rng, 6, 3)
+    # loops at several levels multiply the activations: the tree is pruned to the size cap
+    tree = fit_tree(kinds, driver, tree, 96)
+    rec = {'tree': tree, 'driver': driver, 'route': rng.choice(REC_ROUTES),
+           'doom': rng.randint(0, 1), 'renders': rng.choice([1, 1, 2, 3]), 'top': rng.randint(0, 1),
+           'own': rng.randint(0, 1)}
+    return kinds, rng.choice(KINDS3), rng.choice(BASE_SOURCES), rec
+
+
 def configs_b(tier):
     out = []
     maxd = 2 if tier == 'quick' else 3
@@ -777,6 +1100,12 @@ def run(ctx, spec):
         for i, cfg in enumerate(configs_b(ctx.tier)):
             if i % ctx.nshards == ctx.shard:
                 run_b(ctx, *cfg)
+        for i, cfg in enumerate(configs_r(ctx.tier)):
+            if i % ctx.nshards == ctx.shard:
+                run_r(ctx, *cfg)
+        for _ in range((240 if ctx.tier == 'quick' else 6400) // ctx.nshards):
+            ctx.count('R:seeded nests over seeded trees')
+            run_r(ctx, *random_rec(rng, ctx.tier))
     finally:
         reach.stop()
         reach.report(ctx)
@@ -816,6 +1145,28 @@ def finish(agg):
         for r in ('boom', 'rsub'):
             if not unw.get('%s/%s' % (k, r)):
                 inc.append('block kind %s never left through an exception raised by %s' % (k, r))
+    # part R: the deciding comparisons are the probe groups an outer activation renders
+    # after an inner activation of the same template (the same block tag objects) ended
+    for k in ('R:renders', 'R:activations inside an activation of the same template',
+              'R:probes in an outer activation after an inner activation of the same template ended',
+              'R:inner activations left through an exception',
+              'R:renders repeated on the same template objects',
+              'R:renders with the self-invoking template called by the application itself',
+              'R:renders with own defaults and variables on the self-invoking template'):
+        if not c.get(k):
+            inc.append('monitor never evaluated: ' + k)
+    rk = t.get('R block kind re-entered', {})
+    ru = t.get('R block kind of an inner activation unwound by an exception', {})
+    for k in NEST_KINDS:
+        if not rk.get(k):
+            inc.append('block kind %s never re-entered by a template invoking itself' % k)
+        if not ru.get(k):
+            inc.append('block kind %s of an inner activation never left through an exception' % k)
+    for name, keys in (('R route', REC_ROUTES), ('R driver', REC_DRIVERS), ('R bound value kind', KINDS3),
+                       ('R base namespace source', BASE_SOURCES)):
+        for k in keys:
+            if not t.get(name, {}).get(k):
+                inc.append('%s %s never rendered with a re-entrant activation' % (name[2:], k))
     wk = t.get('A winner source x kind', {})
     for s in SOURCES:
         for k in KINDS3 + FALSY:
@@ -825,7 +1176,9 @@ def finish(agg):
             'coverage': {'exhaustive': True,
                          'explanation': 'exhaustive: 127 subsets x 3^|S| kind assignments (16383), '
                                         'falsy winners, S1,S2,S1 call histories, all nests of 12 block kinds to depth %d x 3 '
-                                        'value kinds x exception modes; seeded: mixed 8-kind assignments, long histories' % maxd,
+                                        'value kinds x exception modes, every block kind / pair of kinds re-entered by a '
+                                        'template invoking itself; seeded: mixed 8-kind assignments, long histories, '
+                                        'self-invoking nests over seeded trees' % maxd,
                          'subsets_rendered': len(subsets),
                          'nest_kinds': NEST_KINDS, 'design_kinds': DESIGN_KINDS}}
 
@@ -842,5 +1195,7 @@ def replay(ctx, rep):
         run_a(ctx, c['mask'], tuple(c['kinds']), c['pad'], c['variant'], c['cls'], 'replay')
     elif c['part'] == 'H':
         run_h(ctx, c['hist'])
+    elif c['part'] == 'R':
+        run_r(ctx, tuple(c['kinds']), c['vk'], c['bs'], c['rec'])
     else:
         run_b(ctx, tuple(c['kinds']), c['vk'], c['bs'], tuple(c['exc']) if c.get('exc') else None)
